@@ -120,6 +120,22 @@ func drawCfg(r *simkit.Run) acfg {
 	if c.UseRouter {
 		c.Deadlines = tp.Intn(4) == 0
 	}
+	// Replayability: a bounded resource may only be contended by goroutines that
+	// were woken in DIFFERENT scheduler steps, otherwise the Go scheduler and not
+	// the tape decides who wins. The blocking append pool and the non-blocking
+	// post-commit pool are therefore never smaller than the number of effects
+	// that can be outstanding (channels x in-flight batches); a Router fans one
+	// batch out to several channels in one step, so with a Router the advance
+	// pool covers every channel and shard admission is not the bottleneck.
+	if need := c.Channels * c.Inflight; c.EffectPool < need {
+		c.EffectPool = need
+	}
+	if c.UseRouter {
+		if c.AdvancePool < c.Channels {
+			c.AdvancePool = c.Channels
+		}
+		c.Admission = 1024
+	}
 	if r.Property == "C41" {
 		c.Stops = 1 + tp.Weighted([]int{2, 3, 2})
 		c.StopAfter = 1 + tp.Intn(c.Ops)
@@ -156,6 +172,11 @@ func runWorld(t *testing.T, r *simkit.Run) {
 			Idle: func() time.Duration {
 				if q.workloadDone() {
 					return 0
+				}
+				if q.opsInFlight() == 0 {
+					// only a drain is in flight: its pool-release polls (1 ms tickers racing
+					// with exiting workers) finish within one such sleep whatever their phase
+					return 10 * time.Millisecond
 				}
 				return time.Millisecond
 			}}
@@ -507,9 +528,9 @@ func (q *aworld) doApply(p *simkit.Parked, pk *park, fault string) {
 	if fault != "" {
 		q.r.Fault(fault)
 		q.markFaulted(ar, fault)
-		ar.failed = true
 		switch fault {
 		case "append_failed_not_written":
+			ar.failed = true // the only error class the writer may answer with recovery lookups and one retry
 			pk.out.err = fmt.Errorf("%w: %w", ca.ErrAppendFailed, errSimStorage)
 		case "append_backpressured":
 			pk.out.err = fmt.Errorf("%w: %w", ca.ErrBackpressured, errSimStorage)
@@ -664,6 +685,9 @@ func (q *aworld) startOp(cl *caller) {
 	batch := make([]ca.SendBatchItem, len(o.items))
 	ctx := context.Background()
 	if o.deadline > 0 {
+		// every simulator-initiated sleep is a multiple of 50 us; a per-operation
+		// skew keeps this deadline from ever tying with another timer
+		o.deadline += time.Duration(o.id%49+1) * time.Microsecond
 		ctx, o.cancel = context.WithTimeout(ctx, o.deadline)
 	}
 	for i, it := range o.items {
@@ -742,6 +766,10 @@ func (q *aworld) startStop() {
 	q.stopsLeft--
 	st := &stopOp{id: len(q.stops) + 1, start: q.r.Steps}
 	st.timeout = []time.Duration{time.Millisecond, 0, 5 * time.Millisecond, 50 * time.Millisecond, time.Hour}[q.r.Tape.Weighted([]int{3, 2, 2, 1, 2})]
+	if st.timeout > 0 && st.timeout < time.Hour {
+		// off the 50 us grid of every other timer: the deadline never ties with the drain's poll
+		st.timeout += time.Duration(st.id*7%49+1) * time.Microsecond
+	}
 	if q.stopBegan == 0 {
 		q.stopBegan = q.r.Steps
 		q.stopAtBegin = len(q.admittedIncomplete())
@@ -945,6 +973,9 @@ func (q *aworld) observeOp(o *op) {
 			if q.identCount[ident] > 1 {
 				q.resolved++
 			}
+			if it.kind == kDupInBatch {
+				q.r.Probe("coalesce.inbatch_duplicate_succeeded")
+			}
 		}
 		if (it.kind == kNew || it.kind == kUnkeyed) && (it.cno == "" || q.keyCount[it.keyID()] == 1) && !q.faulted[ident] {
 			perChan[it.ch] = append(perChan[it.ch], okItem{i, seq})
@@ -1016,7 +1047,6 @@ func (q *aworld) finalPhase() {
 				q.reportStuck(final != nil)
 				return
 			}
-			q.r.Steps++
 			time.Sleep(time.Millisecond)
 			continue
 		}
